@@ -1661,7 +1661,8 @@ class Union(OR):
         self._eval_parent_ = parent
 
         yield from self.evaluate_left(sources)
-        yield from self.evaluate_right(sources)
+        # the second pass only adds solutions: where the right operand is false the first pass has already decided
+        yield from filter(lambda value: value.is_true, self.evaluate_right(sources))
 
 
 @dataclass(eq=False, repr=False)
